@@ -3,14 +3,19 @@
 # of the repository (VERIF_REPO), and writes one line per (change, check) to the given file.  Meant for `vp run --with-repo`.
 #   usage: tools/matrix.sh <repo-copy> <outfile> [checks...]
 repo=$1; out=$2; shift 2
-checks=${@:-C01 C02 C03 C04 C05 C06 C07 C08 C10 C11 C12 C13 C14 C15 C16 C17 C18 C19 C20}
+# default columns: the change's own property plus the checks that take seconds (the whole row then takes about two minutes)
+fast="C01 C03 C04 C05 C06 C07 C10 C11 C12 C13 C14 C16 C17 C19"
+checks=${@:-OWN $fast}
 here=$(cd "$(dirname "$0")/.." && pwd)
 cd "$here"
 : > "$out"
 for d in seeded/*/; do
   name=$(basename $d)
   git -C "$repo" checkout -q -- . && git -C "$repo" apply "$here/$d/patch.diff" || { echo "$name APPLY-FAILED" >> "$out"; continue; }
+  own=${name%%-*}
   for c in $checks; do
+    if [ "$c" = OWN ]; then case " $fast " in *" $own "*) continue;; esac; c=$own; fi
+    grep -q '"status": "neutralised"' "$here/$d/meta.json" && { echo "$name $c neutralised" >> "$out"; continue; }
     o=$(VERIF_REPO="$repo" timeout 1200 ./check.sh $c quick 2>&1); rc=$?
     echo "$name $c exit=$rc $(echo "$o" | grep -c '^VIOLATION') violations" >> "$out"
   done
